@@ -21,7 +21,7 @@ def token(n, payloads):
     return f"{n}:{h}"
 
 
-def run_stream(chunks, with_token=True):
+def run_stream(chunks, with_token=True, second_conn=False):
     """feed the chunks to a real HdlcConnection that awaits a response; poll until nothing is pending."""
     from dlms_cosem.hdlc.connection import HdlcConnection
     from dlms_cosem.hdlc import frames, state as hstate
@@ -33,7 +33,20 @@ def run_stream(chunks, with_token=True):
     conn.send(frames.ReceiveReadyFrame(server, client, receive_sequence_number=conn.server_rsn))
     outs = ["ok"]
     delivered = []
+    other = None
+    if second_conn:
+        # another connection in the same process (another meter on another port) that is in the middle of receiving a frame
+        # of its own: connections do not share their receive buffers
+        other = HdlcConnection(server, client)
+        other.send(frames.SetNormalResponseModeFrame(server, client))
+        other.receive_data(frames.UnNumberedAcknowledgmentFrame(client, server, b"").to_bytes())
+        other.next_event()
+        other.send(frames.ReceiveReadyFrame(server, client, receive_sequence_number=other.server_rsn))
+        other.receive_data(b"\x7e\xa0\x19\x03\x02")
     for ch in chunks:
+        if other is not None:
+            other.receive_data(b"\x23")
+            other.next_event()
         conn.receive_data(ch)
         new = []
         while True:
@@ -87,6 +100,9 @@ class C10(fw.Prop):
             ends.append(len(stream))
         cuts = sorted(set(c for c in d["cuts"] if 0 < c < len(stream)))
         chunks = [stream[a:b] for a, b in zip([0] + cuts, cuts + [len(stream)])]
+        # pieces of size zero (a read that timed out with nothing): inserted at the given chunk indices
+        for i in sorted(d.get("empties", []), reverse=True):
+            chunks.insert(min(i, len(chunks)), b"")
         lines = ["rx init"]
         fed = 0
         for ch in chunks:
@@ -95,7 +111,7 @@ class C10(fw.Prop):
             # with garbage in the stream the property demands nothing: compare the model side only
             lines.append(f"rx feed {fw.hx(ch)} {token(n, payloads) if not d.get('garbage') else '-'}")
         kind = "split" if not d.get("garbage") else "model"
-        return fw.Case(lines, lambda: run_stream(chunks, with_token=not d.get("garbage")), kind, dict(d),
+        return fw.Case(lines, lambda: run_stream(chunks, with_token=not d.get("garbage"), second_conn=bool(d.get("second_conn"))), kind, dict(d),
                        tags=(d.get("tag", "stream"), f"frames{len(frames)}"))
 
     def gen_stream(self, rng, nframes, maxlen, density):
@@ -133,6 +149,29 @@ class C10(fw.Prop):
                 for a, b in pairs:
                     yield mk(d_of(frames, payloads, share, [a, b], "every-cut-pair"))
                 yield mk(d_of(frames, payloads, share, list(range(1, total)), "one-byte-chunks"))
+        # pieces of size zero between the pieces; a second connection alive in the same process; payloads that are themselves
+        # complete valid frames (a forwarded / captured frame, flags and check sequences included)
+        for rep in range(30 if deep else 6):
+            n = rng.randint(1, 3)
+            frames, payloads, share = self.gen_stream(rng, n, 8, rng.choice([0.0, 0.3]))
+            total = sum(len(f) for f in frames) - sum(share)
+            cuts = sorted(rng.sample(range(1, total), min(total - 1, rng.randint(1, 6))))
+            d = d_of(frames, payloads, share, cuts, "empty-pieces")
+            d["empties"] = [rng.randint(0, len(cuts) + 1) for _ in range(rng.randint(1, 3))]
+            yield mk(d)
+            d = d_of(frames, payloads, share, cuts, "second-connection")
+            d["second_conn"] = True
+            yield mk(d)
+        for rep in range(20 if deep else 4):
+            inner = frame_bytes(rng.randrange(8), bytes(rng.getrandbits(8) for _ in range(rng.randint(1, 12))))
+            payloads = [rng.choice([inner, b"\x01" + inner, inner + b"\x02", inner + inner[1:]])] + [b"\x05\x06"]
+            frames = [frame_bytes(i, p, segmented=(i < 1)) for i, p in enumerate(payloads)]
+            share = [rng.random() < 0.5]
+            total = sum(len(f) for f in frames) - sum(share)
+            yield mk(d_of(frames, payloads, share, [], "embedded-frame"))
+            for c in (range(1, total) if deep else rng.sample(range(1, total), min(total - 1, 12))):
+                yield mk(d_of(frames, payloads, share, [c], "embedded-frame"))
+            yield mk(d_of(frames, payloads, share, list(range(1, total)), "embedded-frame"))
         # long streams: random multi-cuts
         for _ in range(400 if deep else 40):
             n = rng.randint(1, 8)
